@@ -147,8 +147,8 @@ def r3(cx):
             # was still inside the critical section enters next and appends behind the torn record.  The sticky error has to be
             # consulted again inside the serialized section: in commit() between the lock and env.write, or in the
             # implementation before it appends.
-            lock = [x for x in b.calls if "write_mutex" in origin_of_operand(b, x.args[0]).field_names()
-                    and "lock" in x.primary.split("::")[-1]] if b.calls else []
+            lock = [x for x in b.calls if x.primary.split("::")[-1] == "lock" and "Mutex" in x.primary and x.bb in b.live
+                    and b.set_dominates({x.bb}, c.bb)]
             again = False
             if lock:
                 Lb = set(b.blocks_of(lock))
@@ -248,3 +248,65 @@ def r5(cx):
                  "CommitOracle::publish records the displaced stamp without testing it against the stamp it is writing: the second occurrence of a key in one batch "
                  "overwrites the undo record with the batch's own stamp, `rollback` then forgets the last committed writer, and a failed commit lets a stale "
                  "transaction pass the conflict check (lost update)")
+
+
+def _arena_fill_readers(cx):
+    """functions (other than the allocator) that read the counter the arena's bump allocator advances"""
+    f = cx.f
+    ab = f.body("Arena::alloc")
+    ctr = set()
+    for c in ab.calls:
+        if c.primary.split("::")[-1] in ("fetch_add", "compare_exchange", "compare_exchange_weak", "fetch_update") and c.args:
+            ctr |= {fl for (_, fl) in origin_of_operand(ab, c.args[0]).fields}
+    if not ctr:
+        raise AnchorMissing("Arena::alloc: no atomic update of a field (bump allocator not recognised)")
+    readers = set()
+    for bid, body in f.bodies.items():
+        if body.file != ab.file or bid == ab.id:
+            continue
+        for c in body.calls:
+            if c.primary.split("::")[-1] == "load" and c.args and ctr & {fl for (_, fl) in origin_of_operand(body, c.args[0]).fields}:
+                readers.add(bid)
+    return ctr, readers
+
+
+@rule("C15", "C15.R6", "a failed apply does not leave an unusable active memtable behind")
+def r6(cx):
+    """`Arena::alloc` advances its counter BEFORE it checks the capacity: an allocation that does not fit leaves the arena
+    exhausted for good (by design -- the memtable is then rotated).  `LsmCommitEnv::apply` relies on `rotate_memtable` to
+    install a fresh arena before its retry.  Necessary condition: every success path of the rotation either replaces the
+    active memtable or has looked at the arena's fill state; a path that returns Ok on other grounds (e.g. `is_empty`)
+    leaves an exhausted arena in place, and every later commit fails with ArenaFull."""
+    f = cx.f
+    ctr, readers = _arena_fill_readers(cx)
+    cx.floor("readers of the arena fill counter %s" % sorted(ctr), len(readers), 1)
+    ab = f.body("Arena::alloc")
+    # premise: the allocator advances before it checks (otherwise a failed allocation leaves no trace and the rule is moot)
+    premise = any(c.primary.split("::")[-1] == "fetch_add" and c.bb in ab.live for c in ab.calls)
+    app = None
+    for impl in f.bodies_like("CommitEnv::apply"):
+        if impl.impl_trait and f.may_reach(impl.id, "CoreInner::rotate_memtable"):
+            app = impl
+    if app is None:
+        raise AnchorMissing("no CommitEnv::apply implementation rotates the memtable")
+    adds = [c for c in app.calls if c.bb in app.live and c.primary.endswith("MemTable::add")]
+    cx.floor("MemTable::add sites in %s (first try + retry)" % app.id, len(adds), 2)
+    rb = f.body("CoreInner::rotate_memtable")
+    repl = [c for c in rb.calls if c.bb in rb.live and (c.primary.startswith("std::mem::replace") or c.primary.startswith("core::mem::replace")
+                                                        or c.primary.endswith("DerefMut::deref_mut"))
+            and c.args and "active_memtable" in origin_of_operand(rb, c.args[0]).field_names()]
+    # the role of the field, not its name: the guard the function takes first
+    if not repl:
+        repl = [c for c in rb.calls if c.bb in rb.live and (c.primary.startswith("std::mem::replace") or c.primary.startswith("core::mem::replace"))]
+    cx.floor("replacement of the active memtable in rotate_memtable", len(repl), 1)
+    looked = [c for c in rb.calls if c.bb in rb.live and any(f.call_may_reach(c, {f.bodies[r].id}) or c.primary == f.bodies[r].id for r in readers)]
+    T = set(rb.blocks_of(repl)) | set(rb.blocks_of(looked))
+    r = feasible_reach(rb, [0], avoid=T)
+    bad = [e for e, kind in exits(rb) if e in r and e not in T and kind != "err"]
+    if not premise:
+        cx.ok("Arena::alloc no longer advances its counter before checking: a failed allocation leaves no trace", ab.where())
+        return
+    cx.check(not bad, "every success path of rotate_memtable replaces the active memtable or has read the arena's fill state",
+             "exhausted-arena-kept|CoreInner::rotate_memtable", rb.where(bad[0]) if bad else rb.where(),
+             "rotate_memtable returns Ok on a path that neither installs a fresh memtable nor looks at the arena: after an insert that "
+             "did not fit, the (still empty) memtable keeps an exhausted arena and every later commit fails with ArenaFull")
